@@ -63,6 +63,60 @@ def _func_body(src, header_re):
         j += 1
 
 
+def _blank_strings(s):
+    """same text with the contents of string/char literals replaced by blanks (positions preserved)"""
+    out, i, n = [], 0, len(s)
+    while i < n:
+        c = s[i]
+        if c in "\"'":
+            j = i + 1
+            while j < n and s[j] != c:
+                j += 2 if s[j] == "\\" else 1
+            out.append(c + " " * (j - i - 1) + c); i = j + 1
+        else:
+            out.append(c); i += 1
+    return "".join(out)
+
+
+def _enclosing(body, pos):
+    """conditions of the `if(...) {` / `else if(...) {` / `else {` blocks that enclose position `pos` of a function
+    body (comments stripped), outermost first, as (keyword, normalised condition) pairs; other blocks as ('block', '')."""
+    stack, i, n = [], 0, len(body)
+    while i < pos:
+        c = body[i]
+        if c in "\"'":
+            j = i + 1
+            while body[j] != c:
+                j += 2 if body[j] == "\\" else 1
+            i = j + 1
+            continue
+        if c == "{":
+            head = body[:i].rstrip()
+            kw, cond = "block", ""
+            if head.endswith(")"):
+                depth, k = 0, len(head) - 1
+                while True:
+                    if head[k] == ")":
+                        depth += 1
+                    elif head[k] == "(":
+                        depth -= 1
+                        if depth == 0:
+                            break
+                    k -= 1
+                pre = head[:k].rstrip()
+                m = re.search(r"(else\s+if|if|while|for|switch|[A-Za-z_]\w*)$", pre)
+                if m:
+                    kw = re.sub(r"\s+", " ", m.group(1))
+                    cond = re.sub(r"\s+", "", head[k + 1:-1])
+            elif re.search(r"\belse$", head):
+                kw = "else"
+            stack.append((kw, cond))
+        elif c == "}":
+            stack.pop()
+        i += 1
+    return stack
+
+
 def _need(cond, what):
     if not cond:
         raise ValueError("source no longer has the shape the model was written for: " + what)
@@ -225,10 +279,25 @@ def extract(repo):
     _need(m, "TYPEget_RefTypeVarNm: case group returning 0")
     ref_none = re.findall(r"case\s+([a-z_]+)\s*:", m.group(1))
     pd = _func_body(ct, r"void\s+TYPEprint_descriptions\s*\(\s*const\s+Type\s+type\s*,\s*FILES\s*\*\s*files\s*,\s*Schema\s+schema\s*\)\s*\{")
-    m = re.search(r"if\s*\(\s*TYPEis_([a-z]+)\s*\(\s*type\s*\)\s*&&\s*\(\s*i\s*=\s*TYPEget_ancestor\s*\(\s*type\s*\)\s*\)\s*!=\s*NULL\s*\)\s*\{.*?return\s*;\s*\}\s*if\s*\(\s*!TYPEget_RefTypeVarNm\s*\(\s*type\s*,\s*typename_buf\s*,\s*schema\s*\)\s*\)\s*\{\s*if\s*\(\s*TYPEis_([a-z]+)\s*\(\s*type\s*\)\s*\)\s*\{\s*TYPEPrint\s*\(\s*type\s*,\s*files\s*,\s*schema\s*\)\s*;\s*\}\s*\}\s*else", pd, re.S)
-    _need(m, "TYPEprint_descriptions: renamed-<kind> early return; !RefTypeVarNm && TYPEis_<kind> -> TYPEPrint")
-    pd_renamed, pd_print = m.group(1) + "_", m.group(2) + "_"
-    _need(len(re.findall(r"TYPEPrint\s*\(", pd)) == 1, "TYPEprint_descriptions calls TYPEPrint once")
+    # Only the statements the file set depends on are matched (anything else in the function may change freely):
+    #  (1) the single call TYPEPrint( type, files, schema ) and the conditions of the blocks enclosing it,
+    #  (2) every `return` that precedes it: exactly one, inside `if( TYPEis_<kind>( type ) && ( i = TYPEget_ancestor( type ) ) != NULL )`.
+    pd = _blank_strings(pd)
+    calls = [m.start() for m in re.finditer(r"\bTYPEPrint\s*\(", pd)]
+    _need(len(calls) == 1, "TYPEprint_descriptions calls TYPEPrint exactly once")
+    enc = _enclosing(pd, calls[0])
+    _need(len(enc) == 2 and enc[0][0] == "if" and enc[1][0] == "if" and
+          re.fullmatch(r"!TYPEget_RefTypeVarNm\(type,typename_buf,schema\)", enc[0][1]) and
+          re.fullmatch(r"TYPEis_([a-z]+)\(type\)", enc[1][1]),
+          f"TYPEprint_descriptions: TYPEPrint guarded by if( !TYPEget_RefTypeVarNm(...) ) {{ if( TYPEis_<kind>( type ) ) (found {enc})")
+    pd_print = re.fullmatch(r"TYPEis_([a-z]+)\(type\)", enc[1][1]).group(1) + "_"
+    _need(re.search(r"TYPEPrint\s*\(\s*type\s*,\s*files\s*,\s*schema\s*\)", pd[calls[0]:calls[0] + 60]), "TYPEPrint( type, files, schema )")
+    rets = [m.start() for m in re.finditer(r"\breturn\b", pd[:calls[0]])]
+    _need(len(rets) == 1, f"TYPEprint_descriptions: exactly one return before the TYPEPrint call (found {len(rets)})")
+    renc = _enclosing(pd, rets[0])
+    m = re.fullmatch(r"TYPEis_([a-z]+)\(type\)&&\(i=TYPEget_ancestor\(type\)\)!=NULL", renc[0][1]) if len(renc) == 1 and renc[0][0] == "if" else None
+    _need(m, f"TYPEprint_descriptions: the early return is inside if( TYPEis_<kind>( type ) && ( i = TYPEget_ancestor( type ) ) != NULL ) (found {renc})")
+    pd_renamed = m.group(1) + "_"
     tp = _func_body(ct, r"void\s+TYPEPrint\s*\(\s*const\s+Type\s+type\s*,\s*FILES\s*\*\s*files\s*,\s*Schema\s+schema\s*\)\s*\{")
     _need(re.search(r"names\s*=\s*getTypeFilenames\s*\(\s*type\s*\)", tp) and re.search(r"hdr\s*=\s*FILEcreate\s*\(\s*names\.header\s*\)\s*;\s*impl\s*=\s*FILEcreate\s*\(\s*names\.impl\s*\)", tp), "TYPEPrint creates names.header and names.impl from getTypeFilenames")
     ce = _strip_comments(_read(repo, "src/exp2cxx/classes_entity.c"))
@@ -241,13 +310,31 @@ def extract(repo):
           "TYPEselect_print: renamed select returns before the single TYPEPrint(t, ...)")
     cw = _strip_comments(_read(repo, "src/exp2cxx/classes_wrapper.cc"))
     sp2 = _func_body(cw, r"void\s+SCOPEPrint\s*\(\s*Scope\s+scope\s*,")
-    m = re.search(r"SCOPEdo_types\s*\(\s*scope\s*,\s*t\s*,\s*de\s*\)\s*\{\s*if\s*\(\s*\(\s*t->search_id\s*==\s*CANPROCESS\s*\)\s*&&\s*!\(\s*TYPEis_([a-z]+)\s*\(\s*t\s*\)\s*&&\s*TYPEget_head\s*\(\s*t\s*\)\s*\)\s*\)\s*\{\s*TYPEprint_descriptions\s*\(\s*t\s*,\s*files\s*,\s*schema\s*\)\s*;\s*if\s*\(\s*!TYPEis_([a-z]+)\s*\(\s*t\s*\)\s*\)\s*\{\s*t->search_id\s*=\s*PROCESSED\s*;", sp2)
-    _need(m, "SCOPEPrint loop 1: all CANPROCESS types except renamed <kind> -> TYPEprint_descriptions; non-<kind> marked PROCESSED")
-    l1_excl, l1_keep = m.group(1) + "_", m.group(2) + "_"
-    m = re.search(r"SCOPEdo_types\s*\(\s*scope\s*,\s*t\s*,\s*de\s*\)\s*\{\s*if\s*\(\s*t->search_id\s*==\s*CANPROCESS\s*\)\s*\{\s*if\s*\(\s*TYPEis_([a-z]+)\s*\(\s*t\s*\)\s*\)\s*\{\s*TYPEselect_print\s*\(\s*t\s*,\s*files\s*,\s*schema\s*\)\s*;\s*\}\s*if\s*\(\s*TYPEis_([a-z]+)\s*\(\s*t\s*\)\s*\)\s*\{\s*TYPEprint_descriptions\s*\(\s*t\s*,\s*files\s*,\s*schema\s*\)\s*;\s*\}\s*t->search_id\s*=\s*PROCESSED\s*;", sp2)
-    _need(m, "SCOPEPrint loop 3: CANPROCESS <kind> -> TYPEselect_print; <kind> -> TYPEprint_descriptions")
-    l3_sel, l3_enum = m.group(1) + "_", m.group(2) + "_"
-    _need(re.search(r"LISTdo\s*\(\s*list\s*,\s*e\s*,\s*Entity\s*\)\s*\{\s*if\s*\(\s*e->search_id\s*==\s*CANPROCESS\s*\)\s*\{\s*ENTITYPrint\s*\(", sp2), "SCOPEPrint: ENTITYPrint for every CANPROCESS entity")
+    # structural: the calls that can create per-type / per-entity files and the conditions of their enclosing blocks
+    sp2 = _blank_strings(sp2)
+    def calls_of(name):
+        return [m.start() for m in re.finditer(r"\b" + name + r"\s*\(", sp2)]
+    td, ts, ep = calls_of("TYPEprint_descriptions"), calls_of("TYPEselect_print"), calls_of("ENTITYPrint")
+    _need(len(td) == 3 and len(ts) == 1 and len(ep) == 1, f"SCOPEPrint: 3 calls of TYPEprint_descriptions, 1 of TYPEselect_print, 1 of ENTITYPrint (found {len(td)},{len(ts)},{len(ep)})")
+    e1 = _enclosing(sp2, td[0])
+    m = re.fullmatch(r"\(t->search_id==CANPROCESS\)&&!\(TYPEis_([a-z]+)\(t\)&&TYPEget_head\(t\)\)", e1[-1][1]) if len(e1) == 2 and e1[0] == ("SCOPEdo_types", "scope,t,de") and e1[1][0] == "if" else None
+    _need(m, f"SCOPEPrint loop 1: SCOPEdo_types {{ if( ( t->search_id == CANPROCESS ) && !( TYPEis_<kind>( t ) && TYPEget_head( t ) ) ) {{ TYPEprint_descriptions (found {e1})")
+    l1_excl = m.group(1) + "_"
+    proc = [x.start() for x in re.finditer(r"t->search_id\s*=\s*PROCESSED", sp2) if x.start() > td[0] and x.start() < td[1]]
+    _need(len(proc) == 1, "SCOPEPrint loop 1: one `t->search_id = PROCESSED`")
+    ep1 = _enclosing(sp2, proc[0])
+    m = re.fullmatch(r"!TYPEis_([a-z]+)\(t\)", ep1[-1][1]) if len(ep1) == 3 and ep1[:2] == e1 and ep1[2][0] == "if" else None
+    _need(m, f"SCOPEPrint loop 1: marked PROCESSED under if( !TYPEis_<kind>( t ) ) inside the same block (found {ep1})")
+    l1_keep = m.group(1) + "_"
+    e3s, e3d = _enclosing(sp2, ts[0]), _enclosing(sp2, td[2])
+    ok = (len(e3s) == 3 and len(e3d) == 3 and e3s[:2] == e3d[:2] and e3s[0] == ("SCOPEdo_types", "scope,t,de") and
+          e3s[1] == ("if", "t->search_id==CANPROCESS") and e3s[2][0] == "if" and e3d[2][0] == "if")
+    ms, md = (re.fullmatch(r"TYPEis_([a-z]+)\(t\)", e3s[2][1]), re.fullmatch(r"TYPEis_([a-z]+)\(t\)", e3d[2][1])) if ok else (None, None)
+    _need(ms and md, f"SCOPEPrint loop 3: if( t->search_id == CANPROCESS ) {{ if( TYPEis_<k>( t ) ) TYPEselect_print; if( TYPEis_<k'>( t ) ) TYPEprint_descriptions (found {e3s} / {e3d})")
+    l3_sel, l3_enum = ms.group(1) + "_", md.group(1) + "_"
+    ee = _enclosing(sp2, ep[0])
+    _need(len(ee) == 2 and ee[0] == ("LISTdo", "list,e,Entity") and ee[1] == ("if", "e->search_id==CANPROCESS"),
+          f"SCOPEPrint: ENTITYPrint for every CANPROCESS entity of `list` (found {ee})")
     _need(re.search(r"list\s*=\s*SCOPEget_entities_superclass_order\s*\(\s*scope\s*\)", sp2), "SCOPEPrint: entity list from SCOPEget_entities_superclass_order")
 
     hdr = _func_body(cw, r"void\s+print_file_header\s*\(\s*FILES\s*\*\s*files\s*\)\s*\{")
